@@ -344,6 +344,7 @@ impl CodegenContext {
         self.current_segment = self.initial_segment.clone();
         self.test_elements.clear();
         self.source_map.clear();
+        self.analysis.clear_usages();
     }
 
     fn try_current_target_pc(&self) -> Option<ProgramCounter> {
